@@ -7,7 +7,7 @@
    response with a mapped address (oracle).  `pick` resolves Go's map iteration order.  A state
    `s` is arbitrary: every registry a history can produce is covered, and C20_registry_history
    says which registry a given history produces. *)
-From Hy Require Import model.C20_Punch proof.C20_Punch.
+From Hy Require Import model.C20_Punch proof.C20_Punch model.C20_Owner proof.C20_Owner.
 From Coq Require Import ZArith.
 Local Open Scope N_scope.
 
@@ -282,3 +282,115 @@ Theorem C20_server_respond_done : forall H is_stun, (forall x, H x <> []) ->
         exists s', sstep H is_stun s (SAdd (ra_id a) m') = Ok (s', SOAdd true))).
 Proof. exact respond_done. Qed.
 Print Assumptions C20_server_respond_done.
+
+(* ---------------- socket ownership (model/C20_Owner.v) ----------------
+   "Every other packet reaches QUIC" is a statement about the socket, not about one call of
+   PunchPacketConn.ReadFrom: the kernel gives each datagram to exactly one caller of ReadFrom.
+   ostate = the socket's receive queue + the PunchPacketConn + what QUIC's ReadFrom has returned
+   (o_quic) + what went to anybody else (o_else) + the socket's read deadline + the phase of the
+   server runtime that owns the socket (app/cmd/server.go). *)
+
+(* One QUIC-side read of a non-empty socket, in any state: the head of the queue leaves it; it is
+   withheld iff it is a STUN binding response or decodes under a registered attempt (usable
+   source); otherwise QUIC gets exactly that datagram and the conn is unchanged; nobody else gets
+   anything, the deadline and the error count are untouched. *)
+Theorem C20_owner_quic_read : forall H is_stun, (forall x, H x <> []) ->
+  forall s g q pick, o_sock s = g :: q ->
+  exists s' o, ostep H is_stun s (ORead RQuic pick) = Ok (s', OOQuic o) /\
+    o_sock s' = q /\ o_else s' = o_else s /\ o_dl s' = o_dl s /\ o_qerr s' = o_qerr s /\ o_ph s' = o_ph s /\
+    d_reg (o_d s') = d_reg (o_d s) /\
+    (diverted o = true <->
+       is_stun (g_bytes g) = true \/ (addr_to_addrport (g_from g) <> None /\ decodes_some H (d_reg (o_d s)) (g_bytes g))) /\
+    (diverted o = false -> o_quic s' = o_quic s ++ [g] /\ o_d s' = o_d s) /\
+    (diverted o = true -> o_quic s' = o_quic s).
+Proof. exact read_quic_spec. Qed.
+Print Assumptions C20_owner_quic_read.
+
+(* A single reader.  Every history - datagrams arriving, QUIC reading, attempts registered and
+   removed, events consumed, the hand-over, time passing, in any order - in which QUIC is the only
+   party that reads the socket or touches its read deadline, from any state; ms = any table that
+   contains the metadata of every attempt registered at the start or during the history.  The run
+   never fails; the datagrams that left the socket are a prefix `consumed` of queue ++ arrivals; what
+   QUIC received (`del`) is a subsequence of them (in order, none twice, byte-identical with their
+   source address); every consumed datagram that is neither STUN nor decodable under anything in ms
+   was delivered - the two filtered lists are EQUAL; nothing went to anybody else; the deadline is
+   as it was and, if none was armed, no QUIC-side read failed. *)
+Theorem C20_single_reader_delivers : forall H is_stun, (forall x, H x <> []) ->
+  forall l s ms,
+  forallb quic_only l = true ->
+  (forall id m, In (id, m) (d_reg (o_d s)) -> In m ms) ->
+  (forall m, In m (added l) -> In m ms) ->
+  exists s' outs consumed del,
+    orun H is_stun s l = Ok (s', outs) /\
+    o_sock s ++ arrivals l = consumed ++ o_sock s' /\
+    o_quic s' = o_quic s ++ del /\ subseq del consumed /\
+    filter (foreign H is_stun ms) del = filter (foreign H is_stun ms) consumed /\
+    o_else s' = o_else s /\ o_dl s' = o_dl s /\ (o_dl s = false -> o_qerr s' = o_qerr s) /\
+    (forall id m, In (id, m) (d_reg (o_d s')) -> In m ms).
+Proof. exact single_reader_delivers. Qed.
+Print Assumptions C20_single_reader_delivers.
+
+(* Two readers: the statement is false as soon as anybody else reads the socket.  QUIC serves,
+   three QUIC-like datagrams arrive, a discovery on the socket itself (realm.Discover) takes the
+   second one: it is foreign, it left the socket, QUIC never gets it. *)
+Theorem C20_two_readers_refuted :
+  exists l s' outs,
+    orun sha256 no_stun (o_init 0) l = Ok (s', outs) /\ o_sock s' = [] /\
+    Forall (fun a => match a with ORead r _ => r = RQuic \/ r = RDirect | _ => True end) l /\
+    exists g, In g (arrivals l) /\ foreign sha256 no_stun (added l) g = true /\
+              ~ In g (o_quic s') /\ In g (o_else s').
+Proof. exact two_readers_refuted. Qed.
+Print Assumptions C20_two_readers_refuted.
+
+(* ... and the read deadline is one per socket: armed by anybody else, its expiry fails a QUIC-side
+   read although QUIC is the only one who reads. *)
+Theorem C20_foreign_deadline_refuted :
+  exists l s' outs,
+    orun sha256 no_stun (o_init 0) l = Ok (s', outs) /\ (0 < o_qerr s')%nat /\
+    forallb quic_only (filter (fun a => match a with OSetDeadline _ _ => false | _ => true end) l) = true.
+Proof. exact foreign_deadline_refuted. Qed.
+Print Assumptions C20_foreign_deadline_refuted.
+
+(* The runtime of app/cmd/server.go as written (site_how: the startup discovery reads the socket
+   itself, the refresh before a re-registration and the per-connect refresh receive from
+   STUNEvents()): in every well-formed history, once QUIC serves it is the only reader. *)
+Theorem C20_runtime_single_reader : forall h,
+  rt_wf PServing h = true -> forallb quic_only (rt_trace site_how h) = true.
+Proof. exact rt_serving_quic_only. Qed.
+Print Assumptions C20_runtime_single_reader.
+
+(* Hence, for every well-formed history of the runtime - startup (discovery alone on the socket,
+   any number of loop iterations, whatever arrives meanwhile), the hand-over to QUIC, then in any
+   order and any number of times: lost sessions with re-registration, per-connect refreshes,
+   datagrams arriving, QUIC reading, punch attempts registered and removed, time passing: at the
+   hand-over QUIC has received nothing; from then on what QUIC's ReadFrom returned is a subsequence
+   of what left the socket, every datagram that left the socket and is neither STUN nor decodable
+   under any metadata ever registered was returned to QUIC (equal filtered lists: exactly once, in
+   order), nothing went to anybody else, and no QUIC-side read failed. *)
+Theorem C20_runtime_delivers : forall H is_stun, (forall x, H x <> []) ->
+  forall pre post cap ms,
+  rt_wf PStartup (pre ++ RtServe :: post) = true ->
+  (forall m, In m (added (rt_trace site_how (pre ++ RtServe :: post))) -> In m ms) ->
+  exists s1 outs1 s2 outs2 consumed,
+    orun H is_stun (o_init cap) (rt_trace site_how (pre ++ [RtServe])) = Ok (s1, outs1) /\
+    orun H is_stun s1 (rt_trace site_how post) = Ok (s2, outs2) /\
+    o_quic s1 = [] /\
+    o_sock s1 ++ arrivals (rt_trace site_how post) = consumed ++ o_sock s2 /\
+    subseq (o_quic s2) consumed /\
+    filter (foreign H is_stun ms) (o_quic s2) = filter (foreign H is_stun ms) consumed /\
+    o_else s2 = o_else s1 /\ o_qerr s2 = 0%nat.
+Proof. exact runtime_delivers. Qed.
+Print Assumptions C20_runtime_delivers.
+
+(* The same runtime with the refresh before a re-registration run on the socket itself
+   (refreshAddrsDirect in registerWithBackoff): refuted by a well-formed history in which a foreign
+   datagram that arrives while QUIC serves is taken by the discovery. *)
+Theorem C20_runtime_direct_reregister_refuted :
+  exists pre post s2 outs,
+    rt_wf PStartup (pre ++ RtServe :: post) = true /\
+    orun sha256 no_stun (o_init 0) (rt_trace site_how_direct_reregister (pre ++ RtServe :: post)) = Ok (s2, outs) /\
+    o_sock s2 = [] /\
+    exists g, In g (arrivals (rt_trace site_how_direct_reregister post)) /\
+              foreign sha256 no_stun [] g = true /\ ~ In g (o_quic s2) /\ In g (o_else s2).
+Proof. exact runtime_direct_reregister_refuted. Qed.
+Print Assumptions C20_runtime_direct_reregister_refuted.
